@@ -124,21 +124,24 @@ class Model:
         self.cmp_fns = set()
         self.ok_ctor = "std::result::Result::Ok"
         self.extra_identity = set()
+        self.hir = None               # gid -> HIR tree of local functions (for inlining unknown helpers)
 
 
 class Interp:
-    def __init__(self, model, fn_id):
+    def __init__(self, model, fn_id, prefix="", depth=0):
         self.m = model
         self.fn_id = fn_id
         self.returns = []     # (constraints, Val, pat_tags, line)
         self.fresh = itertools.count()
+        self.prefix = prefix   # distinguishes the pattern-bound variables of an inlined callee
+        self.depth = depth
 
     # -- helpers -------------------------------------------------------------
     def var(self, name):
         return V("%s" % name)
 
     def bind_fresh(self, name):
-        return V("%s" % name)
+        return V("%s%s" % (self.prefix, name))
 
     # -- patterns ---------------------------------------------------------------
     def match_pat(self, pat, val, env, cons, ptags):
@@ -418,7 +421,18 @@ class Interp:
             outs = nxt
         res = []
         for c, a, t in outs:
-            res.append((c, self.apply(callee, e, a, line), t))
+            try:
+                res.append((c, self.apply(callee, e, a, line), t))
+            except Uninterpretable:
+                # a local helper the table does not know: interpret its body with the arguments bound (inlining)
+                tree = (self.m.hir or {}).get(callee)
+                if tree is None or self.depth >= 3 or len(tree["params"]) != len(a):
+                    raise
+                sub = Interp(self.m, callee, prefix="%s%s$" % (self.prefix, callee.rsplit("::", 1)[-1]), depth=self.depth + 1)
+                for c2, v2, t2, _line in sub.run(tree, a):
+                    if v2.kind == "unit":
+                        continue
+                    res.append((c + c2, v2, t | t2))
         return res
 
     def apply(self, callee, e, a, line):
